@@ -245,6 +245,9 @@ def check_schemas(rng, n):
                 for p in params:
                     if p in ('B', 'T', 'data'):
                         args.append(bytes(rng.getrandbits(8) for _ in range(rng.randint(0, 30))))
+                    elif p == 'segs':
+                        args.append([bytes(rng.getrandbits(8) for _ in range(rng.randint(0, 12)))
+                                     for _ in range(rng.randint(2, 6))])
                     else:
                         args.append(rng.choice([0, 1, 2, 3, 6, 8, 16, 32, rng.randint(0, 60)]))
                 tried += 1
